@@ -144,6 +144,17 @@ CLAIMED["C08"] = (
     "Process death only (no power loss: fsync durability is not observable from user space). IO is observed through open/io.open, file write/flush, os.fsync/replace/rename.",
     "DESIGN.md §2 C08",
 )
+CLAIMED["C05"] = (
+    "exploration",
+    "property-based testing (Hypothesis): Reweighter.run on generated histories and after every reweighting step of generated runs, against a long-double reference of weights/evidence/ESS and an existence oracle for the ESS-limited temperature",
+    "Generated histories (realistic tempered families, perturbed evidences, adversarial non-monotone ESS curves; several beta=0 batches; ESS and "
+    "volume-variation modes) are handed to the real Reweighter; the new temperature must satisfy 0<=beta-<=beta+<=1, the returned weights, the "
+    "recorded evidence and the recorded ESS must all be the reference values at that same temperature, an advance in ESS mode must keep "
+    "ESS>=target and an advance in volume-variation mode must not pass every temperature with ESS>=target. The same oracle runs after each "
+    "Reweighter.run() of real sampler runs.",
+    "Reference = vlib.refs; 'not beyond the ESS limit' is decided on beta+, the limit the code computed (when observable) and a 400-point grid.",
+    "DESIGN.md §2 C05",
+)
 
 ALL = [f"C{i:02d}" for i in range(1, 21)]
 
